@@ -265,7 +265,7 @@ def _md_in(md):
 @st.composite
 def table_specs(draw, tier="quick", values="int", ids="simple", md=True,
                 history=True, history_kind="any", forms=True, types=True,
-                distinct=False, min_dim=1, shape=None):
+                distinct=False, min_dim=1, shape=None, poke=False):
     n, m = shape if shape is not None else draw(shapes(tier, min_dim))
     rows = draw(matrices(n, m, values, distinct=distinct))
     spec = {
@@ -283,7 +283,8 @@ def table_specs(draw, tier="quick", values="int", ids="simple", md=True,
     if history:
         from . import ops
         spec["history"] = draw(ops.histories(history_kind,
-                                             counts=(values == "count")))
+                                             counts=(values == "count"),
+                                             poke=poke))
     else:
         spec["history"] = []
     return spec
@@ -356,7 +357,7 @@ def h5_md(draw, n):
 
 @st.composite
 def h5_table_specs(draw, tier="quick", allow_empty_axis=False, values="wild",
-                   ids="unicode"):
+                   ids="unicode", poke=False):
     if allow_empty_axis and draw(st.integers(0, 5)) == 0:
         n, m = draw(st.sampled_from([(0, 1), (0, 3), (2, 0), (1, 0)]))
     else:
@@ -374,7 +375,7 @@ def h5_table_specs(draw, tier="quick", allow_empty_axis=False, values="wild",
         "type": draw(st.sampled_from([None] + TYPES)),
         "table_id": draw(st.one_of(st.none(), _H5TEXT1)),
         "form": draw(st.sampled_from(FORMS)) if n and m else "dense",
-        "history": draw(ops.histories("any")) if n and m else [],
+        "history": draw(ops.histories("any", poke=poke)) if n and m else [],
     }
     for ax in ("obs_gmd", "samp_gmd"):
         spec[ax] = draw(st.one_of(st.none(), st.dictionaries(
